@@ -143,6 +143,44 @@ class Harness:
         self.path.assume(utf8_valid(bv), "input str is modelled by its (valid) UTF-8 encoding")
         return self._reg(name, SStr(bv))
 
+    def string_any(self, name, min_bytes=0, max_bytes=None):
+        """A symbolic str of *symbolic length*: its UTF-8 encoding is a symbolic-length buffer (valid UTF-8
+        assumed, which is the representation invariant of str)."""
+        from .pybuiltins import utf8_valid, SStrA
+        view = self.abytes(name, min_len=min_bytes, max_len=max_bytes)
+        self.path.assume(utf8_valid(view), "input str is modelled by its (valid) UTF-8 encoding")
+        return SStrA(view)
+
+    def utf8_view(self, s):
+        """The UTF-8 encoding of a str as a bytes value (symbolic-length strings: their buffer view)."""
+        from .pybuiltins import SStrA
+        if isinstance(s, SStrA):
+            return s.view
+        if isinstance(s, SStr):
+            return s.data
+        return BytesVal.of(s.encode("utf-8"))
+
+    def frozen(self, buf):
+        """bytes(buf): an immutable reading of a bytearray that was extended by symbolic-length buffers."""
+        from .pybuiltins import Rope, _OpaqueTail
+        if isinstance(buf, BytesVal) and any(isinstance(i, _OpaqueTail) for i in buf.items):
+            parts, cur = [], []
+            for i in buf.items:
+                if isinstance(i, _OpaqueTail):
+                    if cur:
+                        parts.append(BytesVal(cur))
+                        cur = []
+                    parts.extend(i.part.parts if isinstance(i.part, Rope) else [i.part])
+                else:
+                    cur.append(i)
+            if cur:
+                parts.append(BytesVal(cur))
+            out = BytesVal([])
+            for q in parts:
+                out = Rope.concat(self.it, out, q)
+            return out
+        return buf
+
     # -- access to the real code -----------------------------------------------------------
     def get(self, dotted):
         """'pkg.mod:Name.attr' -> object of the code under verification."""
@@ -420,6 +458,21 @@ class NativeHarness:
     def string(self, name, nbytes, no_nul=True, exclude_bytes=()):
         return bytes(self.inputs[name]["__str_utf8__"]).decode("utf-8")
 
+    def string_any(self, name, min_bytes=0, max_bytes=None):
+        raw = bytes(self._in(name))
+        try:
+            return raw.decode("utf-8")
+        except UnicodeDecodeError:
+            # the solver's bytes are arbitrary where validity is an uninterpreted predicate: not a str
+            self.assume_violations.append("input str is modelled by its (valid) UTF-8 encoding")
+            return raw.decode("utf-8", "replace")
+
+    def frozen(self, buf):
+        return bytes(buf)
+
+    def utf8_view(self, s):
+        return s.encode("utf-8")
+
     def get(self, dotted):
         modname, _, qual = dotted.partition(":")
         obj = importlib.import_module(modname)
@@ -643,6 +696,9 @@ class ConcreteHarness(Harness):
 
     def string(self, name, nbytes, no_nul=True, exclude_bytes=()):
         return bytes(self._in(name)["__str_utf8__"]).decode("utf-8")
+
+    def string_any(self, name, min_bytes=0, max_bytes=None):
+        return bytes(self._in(name)["__bytes__"]).decode("utf-8")
 
     def assume(self, c, why=None):
         if c is not True and not (isinstance(c, SBool) and bool(c)):
